@@ -77,35 +77,35 @@ def model_checking(tier, rep):
 # ---- chains -----------------------------------------------------------------------------------------
 
 def gen_traces(tier, rng):
-    traces = []
+    """Generator of recorded chains (the driving is lazy so that run() can validate in batches)."""
     k = [0]
 
     def chains(pairs, codes=(1, 2, 3, 4), starts=None, as_str=False, tag="r"):
         for code in codes:
             for st in (starts if starts is not None else md.starts_for(pairs, rng)):
-                traces.append(md.run_chain("%s%d" % (tag, k[0]), pairs, code, st, as_str=as_str))
                 k[0] += 1
+                yield md.run_chain("%s%d" % (tag, k[0]), pairs, code, st, as_str=as_str)
 
     # (1) the model checker's instance, concretised: the small families completely, the big ones sampled
     full = ["d_0_1_128", "d_u", "o_0_2_129", "u"] + ([] if tier == "quick" else ["o_1_6_128_255", "p_1"])
     for name in full:
         for lens in md.mc_family(name):
-            chains(md.mc_identity(lens), tag="m")
+            yield from chains(md.mc_identity(lens), tag="m")
     sampled = {"quick": [("q_0_2_3_128", 110), ("q_1_6_255", 40), ("p_1", 40)],
-               "thorough": [("q_0_2_3_128", 1500), ("q_1_6_255", 512), ("c_0_1_2_128", 1200), ("c_1_3_6_255", 1200),
-                            ("c_0_3_128_129", 1200), ("c_2_6_129_255", 1200), ("c_0_1_2_3", 1200),
-                            ("c_6_128_129_255", 1200), ("p_100", 1200)]}[tier]
+               "thorough": [("q_0_2_3_128", 500), ("q_1_6_255", 200), ("c_0_1_2_128", 250), ("c_1_3_6_255", 250),
+                            ("c_0_3_128_129", 250), ("c_2_6_129_255", 250), ("c_0_1_2_3", 250),
+                            ("c_6_128_129_255", 250), ("p_100", 300)]}[tier]
     for name, n in sampled:
         pool = md.mc_family(name)
         for lens in (pool if len(pool) <= n else rng.sample(pool, n)):
-            chains(md.mc_identity(lens), tag="m")
+            yield from chains(md.mc_identity(lens), tag="m")
     # (2) random identities over the whole id space 0..6, 0x80..0xFF, lengths biased to the packing boundaries
-    nrand = 330 if tier == "quick" else 9000
+    nrand = 330 if tier == "quick" else 2400
     for j in range(nrand):
         ascii_only = j % 5 == 0
         pairs = md.rand_identity(rng, oversize_ok=(j % 3 != 0), ascii_only=ascii_only)
         codes = (1, 2, 3, 4) if j % 2 else rng.sample([1, 2, 3, 3, 4], 2)
-        chains(pairs, codes=sorted(set(codes)), as_str=ascii_only, tag="r")
+        yield from chains(pairs, codes=sorted(set(codes)), as_str=ascii_only, tag="r")
     # (3) exact-fit pages: pairs/triples of objects whose encodings sum to 245, 246, 247 bytes
     for total in (245, 246, 247):
         for a in ([1, 60, 121, 122] if tier == "quick" else [1, 2, 60, 100, 120, 121, 122, 200, 240]):
@@ -113,8 +113,19 @@ def gen_traces(tier, rng):
             if b >= 1:
                 for ids in ((0, 1, 2), (1, 2, 3), (5, 6, 0x80), (0xFE, 0xFF, 0x80)):
                     lens = dict(zip(sorted(ids), (a, b, 7)))
-                    chains([[o, md.rand_value(rng, n, False)] for o, n in sorted(lens.items())], starts=[0, sorted(ids)[0]], tag="x")
-    return traces
+                    yield from chains([[o, md.rand_value(rng, n, False)] for o, n in sorted(lens.items())],
+                                      starts=[0, sorted(ids)[0]], tag="x")
+
+
+def batches(gen, size):
+    cur = []
+    for t in gen:
+        cur.append(t)
+        if len(cur) >= size:
+            yield cur
+            cur = []
+    if cur:
+        yield cur
 
 
 def stall_signature_matches(sig, v):
@@ -124,17 +135,17 @@ def stall_signature_matches(sig, v):
             d.get("stall_len", 0) >= sig.get("stall_object_len_min", 1 << 30))
 
 
+def self_test_base(t):
+    return (t["judged_complete"] == 1 and len(t["pages"]) >= 2 and len(t["pages"][0]["rsp"]) < 250 and
+            all(p["cli"]["kind"] == "rsp" and p["cli"]["objs"] for p in t["pages"]))
+
+
 def self_test(ok_traces):
     """The binding must have teeth: a corrupted value byte, a forged next-object id, a dropped page, a forged client
     decode and a padded (oversize) response must each be rejected by TLC."""
-    base = None
-    for t in ok_traces:
-        if t["judged_complete"] == 1 and len(t["pages"]) >= 2 and all(p["cli"]["kind"] == "rsp" and p["cli"]["objs"] for p in t["pages"]) \
-                and len(t["pages"][0]["rsp"]) < 250:
-            base = t
-            break
+    base = next((t for t in ok_traces if self_test_base(t)), None)
     if base is None:
-        raise MachineryError("self-test: no accepted judged chain of two or more pages")
+        return None
     muts = []
     a = copy.deepcopy(base); a["id"] = "st_value"; a["pages"][-1]["rsp"][-1] ^= 1; muts.append((a, {"Values", "ClientDecode"}))
     b = copy.deepcopy(base); b["id"] = "st_next"; b["pages"][0]["rsp"][5] = (b["pages"][0]["rsp"][5] + 1) % 256
@@ -162,56 +173,88 @@ def run(prop, tier):
     rng = random.Random(seed() * 7 + 20)
     rep = Report(prop, tier, "model_checking")
     t0 = time.time()
-    with ThreadPoolExecutor(max_workers=1) as bg:      # TLC model checking runs beside the (single-threaded) driving
-        mc = bg.submit(model_checking, tier, rep)
-        traces = gen_traces(tier, rng)
-        rep.notes["driving_wall_s"] = round(time.time() - t0, 2)
-        mc.result()
-    rep.notes["model_checking_wall_s"] = round(time.time() - t0, 2)
-    verdicts, st = validate_traces("MeiTrace", "MeiTrace.cfg", traces, shards=NCPU)
-    npages = sum(v["step"] for v in verdicts.values())      # pages TLC judged (a failing chain is judged up to the failing page)
-    rep.add_tv(st, len(traces), npages)
-    rep.notes["pages_recorded"] = sum(len(t["pages"]) for t in traces)
-    byid = {t["id"]: t for t in traces}
     known = {f["id"]: f for f in open_findings(prop)}
-    ok_traces = []
-    stats = {"judged_ok": 0, "unjudged_ok": 0, "fail": 0, "multi_page_ok": 0, "max_pages_ok": 0}
-    for tid, v in verdicts.items():
-        t = byid[tid]
-        lens = tuple(len(p["rsp"]) for p in t["pages"][:6])
-        rep.distinct((t["code"], t["start"] == 0, t["judged_complete"], len(t["pages"]) if not t["cut"] else -1, lens))
-        if v["status"] == "OK":
-            ok_traces.append(t)
-            stats["judged_ok" if t["judged_complete"] else "unjudged_ok"] += 1
-            if len(t["pages"]) > 1:
-                stats["multi_page_ok"] += 1
-            stats["max_pages_ok"] = max(stats["max_pages_ok"], len(t["pages"]))
-            continue
-        if v["status"] != "FAIL":
-            raise MachineryError("unexpected verdict status %r" % (v,))
-        stats["fail"] += 1
-        cl = set(v["clauses"])
-        if cl & MACHINERY_CLAUSES:
-            raise MachineryError("harness sanity clause failed on %s: %s" % (tid, v))
-        matched = None
-        for fid, f in known.items():
-            if stall_signature_matches(f.get("signature", {}), v):
-                matched = fid
-        if matched:
-            rep.known(matched)
-            if "known_example" not in rep.notes:
-                rep.notes["known_example"] = {"finding": matched, "code": t["code"], "start": t["start"],
-                                              "identity_lengths": [[o, len(b)] for o, b in t["identity"]],
-                                              "pages_before_cut": len(t["pages"]), "verdict": v}
-        else:
+    ok_traces = []          # a few accepted multi-page chains (self-test, samples); everything else is dropped per batch
+    stats = {"chains": 0, "judged_ok": 0, "unjudged_ok": 0, "fail": 0, "multi_page_ok": 0, "max_pages_ok": 0, "pages_recorded": 0}
+    per_name = {}
+    tv = {"states": 0, "distinct": 0, "tlc_runs": 0, "wall_s": 0.0, "batches": 0}
+    judged_pages = [0]
+
+    def classify(traces, verdicts):
+        for t in traces:
+            v = verdicts[t["id"]]
+            stats["chains"] += 1
+            stats["pages_recorded"] += len(t["pages"])
+            judged_pages[0] += v["step"]      # a failing chain is judged up to the failing page
+            lens = tuple(len(p["rsp"]) for p in t["pages"][:6])
+            rep.distinct((t["code"], t["start"] == 0, t["judged_complete"], len(t["pages"]) if not t["cut"] else -1, lens))
+            if v["status"] == "OK":
+                if len(ok_traces) < 12 and self_test_base(t):
+                    ok_traces.append(t)
+                stats["judged_ok" if t["judged_complete"] else "unjudged_ok"] += 1
+                if len(t["pages"]) > 1:
+                    stats["multi_page_ok"] += 1
+                stats["max_pages_ok"] = max(stats["max_pages_ok"], len(t["pages"]))
+                continue
+            if v["status"] != "FAIL":
+                raise MachineryError("unexpected verdict status %r" % (v,))
+            stats["fail"] += 1
+            cl = set(v["clauses"])
+            if cl & MACHINERY_CLAUSES:
+                raise MachineryError("harness sanity clause failed on %s: %s" % (t["id"], v))
+            matched = None
+            for fid, f in known.items():
+                if stall_signature_matches(f.get("signature", {}), v):
+                    matched = fid
+            if matched:
+                rep.known(matched)
+                if "known_example" not in rep.notes:
+                    rep.notes["known_example"] = {"finding": matched, "code": t["code"], "start": t["start"],
+                                                  "identity_lengths": [[o, len(b)] for o, b in t["identity"]],
+                                                  "pages_before_cut": len(t["pages"]), "verdict": v}
+                continue
+            name = "-".join(sorted(cl))
+            per_name[name] = per_name.get(name, 0) + 1
+            if per_name[name] > 3:      # one defect fails thousands of chains: three replay files per clause set are enough
+                continue
             payload = {"property": prop, "engine": "MeiTrace", "trace": t, "verdict": v}
             if t["cut"]:   # keep the replay file small: an endless chain repeats its last page
                 payload["trace"] = dict(t, pages=t["pages"][:v["step"] + 2], pages_recorded=len(t["pages"]))
-            rep.violation("-".join(sorted(cl)), payload)
-    if stats["judged_ok"] == 0 or stats["multi_page_ok"] == 0:
-        raise MachineryError("no accepted judged / multi-page chain: the check exercised nothing (%s)" % stats)
+            rep.violation(name, payload)
+
+    def validate(traces):
+        verdicts, st = validate_traces("MeiTrace", "MeiTrace.cfg", traces, shards=NCPU)
+        for key in ("states", "distinct", "tlc_runs", "wall_s"):
+            tv[key] += st[key]
+        tv["batches"] += 1
+        return traces, verdicts
+
+    # TLC (model checking, then validation of batch n) runs in subprocesses beside the single-threaded driving of batch n+1
+    with ThreadPoolExecutor(max_workers=1) as mcx, ThreadPoolExecutor(max_workers=1) as tvx:
+        mc = mcx.submit(model_checking, tier, rep)
+        pending = None
+        for batch in batches(gen_traces(tier, rng), 25000 if tier == "quick" else 12000):
+            if tier == "quick" and not mc.done():
+                mc.result()            # quick: do not let the model checker and the validators fight for the cores
+            fut = tvx.submit(validate, batch)
+            if pending is not None:
+                classify(*pending.result())
+            pending = fut
+        if pending is not None:
+            classify(*pending.result())
+        mc.result()
+    rep.notes["driving_model_checking_validation_wall_s"] = round(time.time() - t0, 2)
+    tv["wall_s"] = round(tv["wall_s"], 2)
+    rep.add_tv(tv, stats["chains"], judged_pages[0])
     rep.notes["chains"] = stats
-    rep.notes["self_test"] = self_test(ok_traces)
+    rep.notes["failing_chains_by_clauses"] = per_name
+    st_res = self_test(ok_traces)
+    if st_res is None or stats["judged_ok"] == 0 or stats["multi_page_ok"] == 0:
+        if not rep.violations:
+            raise MachineryError("no accepted judged chain of two or more pages: the check exercised nothing (%s)" % stats)
+        # a tree that fails every multi-page chain leaves no accepted chain to corrupt: the violations are the result
+        st_res = "not run: no accepted judged chain of two or more pages"
+    rep.notes["self_test"] = st_res
     for t in [x for x in ok_traces if len(x["pages"]) >= 2][:3]:
         rep.sample({"id": t["id"], "code": t["code"], "start": t["start"],
                     "identity_lengths": [[o, len(b)] for o, b in t["identity"]][:12],
